@@ -1818,7 +1818,7 @@ class Rule(metaclass=LogicalType):
             with context.enter(route=i) as item_context:
                 try:
                     item_context.transformer(item, cls.contains)
-                except (TypeError, ValueError):
+                except Exception:  # noqa
                     pass
                 else:
                     contains += 1
